@@ -41,7 +41,7 @@ Spec == Init /\ [][Next]_vars
 
 Want == IF mode THEN Pre(tree, 1) ELSE Post(tree, 1)
 
-StackPath       == StackIsPath(tree, stack)
+StackIsPath       == IsRootPath(tree, stack)
 VisitedIsPrefix == IsPrefix(visited, Want)
 PreIsRecursive  == (stack = <<>> /\ mode)  => visited = Pre(tree, 1)
 PostIsRecursive == (stack = <<>> /\ ~mode) => visited = Post(tree, 1)
